@@ -137,11 +137,12 @@ def sepName : Sep → List Char
   | .slash => "slash".toList
   | .space | .undecided => "space".toList
 
-/-- `Value::separator` (value/mod.rs:444). -/
+/-- `Value::separator` (value/mod.rs:444): an argument list carries its own separator (that of the list
+    spread into it, comma for arguments passed one by one; e36bfd5). -/
 def separatorOf : Value → Sep
   | .list _ s _ => s
   | .map _ => .comma
-  | .arglist _ _ _ => .comma
+  | .arglist _ _ s => s
   | _ => .space
 
 /-- `length` (list.rs:3). -/
@@ -169,7 +170,7 @@ def nthF (sw : Sw) : List Value → R
 /-- how `set-nth` reads its first argument (list.rs:55–64) -/
 def setNthParts : Value → List Value × Sep × Bool
   | .list es s b => (es.toList, s, b)
-  | .arglist es _ _ => (es.toList, .comma, false)
+  | .arglist es _ s => (es.toList, s, false)
   | .map ps => ((pairsAsList ps).toList, .comma, false)
   | v => ([v], .undecided, false)
 
@@ -206,7 +207,7 @@ def sepArg (auto : Sep) : Option Value → Except Err Sep
 def appendParts (sw : Sw) : Value → List Value × Sep × Bool
   | .list es s b => (es.toList, s, b)
   | .arglist es kw s =>
-    if sw.appendAsList then (es.toList, .comma, false) else ([.arglist es kw s], .undecided, false)
+    if sw.appendAsList then (es.toList, s, false) else ([.arglist es kw s], .undecided, false)
   | .map ps =>
     if sw.appendAsList then ((pairsAsList ps).toList, .comma, false) else ([.map ps], .undecided, false)
   | v => ([v], .undecided, false)
@@ -226,7 +227,7 @@ def joinParts (sw : Sw) : Value → List Value × Sep × Bool
   | .list es s b => (es.toList, s, b)
   | .map ps => ((pairsAsList ps).toList, .comma, false)
   | .arglist es kw s =>
-    if sw.joinArgAsList then (es.toList, .comma, false) else ([.arglist es kw s], .undecided, false)
+    if sw.joinArgAsList then (es.toList, s, false) else ([.arglist es kw s], .undecided, false)
   | v => ([v], .undecided, false)
 
 /-- the `auto` separator of `join` (list.rs:164–172) -/
@@ -855,6 +856,16 @@ def lawKeysMerge (hasA hasB hasR : Value) : Bool :=
   | .bool x, .bool y, .bool r => r == (x || y)
   | _, _, _ => false
 
+/-- `map-has-key(m, k)` ⇔ some key of `map-keys(m)` is `== k` (`idx` = `index(map-keys(m), k)`) -/
+def lawHasKeyIndex (has idx : Value) : Bool :=
+  match has, idx with
+  | .bool b, .null => b == false
+  | .bool b, .num _ _ => b == true
+  | _, _ => false
+
+/-- a path outside the one written by `map.set(m, k₁ … kₙ, v)` reads the same before and after -/
+def lawSetOtherPath (before after : Value) : Bool := sameV before after
+
 /-- `map-get(map.set(m, k, v), k) = v` -/
 def lawGetSet (v getR : Value) : Bool := sameV getR v
 
@@ -965,6 +976,8 @@ def handle : List String → String
         | "get_merge", [h, a, b, c] => lawAnswer (lawGetMerge h a b c)
         | "keys_merge", [a, b, c] => lawAnswer (lawKeysMerge a b c)
         | "get_set", [a, b] => lawAnswer (lawGetSet a b)
+        | "has_key_index", [a, b] => lawAnswer (lawHasKeyIndex a b)
+        | "set_other_path", [a, b] => lawAnswer (lawSetOtherPath a b)
         | "remove_get", [a, b] => lawAnswer (lawRemoveGet a b)
         | "deep_merge_get", [h, a, b, s, g] => lawAnswer (lawDeepMergeGet h a b s g)
         | _, _ => "bad-op"
